@@ -403,14 +403,23 @@ def _features(fn, db):
             f.add("triple-quote")
         if p.startswith("#") or "|#" in p or "#|" in p:
             f.add("comment")
-        if "%s" in p:
-            f.add("which-quote-opened")
         bare = p.replace('\\"\\"\\"', "").replace("\\'\\'\\'", "").replace('"""', "").replace("'''", "")
         if '"' in bare or "'" in bare:
             f.add("ordinary-quote")
-    if P.has(fn, "state[triplequoted] = $m.group(0)") or P.has(fn, "self.triplequoted = $m.group($i)"):
-        f.add("which-quote-opened")
+    # the quote that opened the string is remembered in state that outlives the call
+    # ... and the pattern that looks for the end of the string is built from it
+    kept = {src(s_.targets[0]) for s_ in ast.walk(fn) if isinstance(s_, ast.Assign) and _persistent(s_.targets[0], fn) and (P.matches(s_.value, "$m.group($i)") or P.matches(s_.value, "$m.group()"))}
+    for c in ast.walk(fn):
+        if isinstance(c, ast.Call) and (dotted(c.func) or "") in ("re.search", "re.match", "match") and c.args and isinstance(c.args[0], ast.BinOp) and isinstance(c.args[0].op, ast.Mod) and src(c.args[0].right) in kept:
+            f.add("which-quote-opened")
     return f, pats
+
+
+def _persistent(target, fn):
+    """a store to state that outlives the call: an attribute, an element of a container, a variable of the enclosing function"""
+    if isinstance(target, (ast.Subscript, ast.Attribute)):
+        return True
+    return isinstance(target, ast.Name) and any(isinstance(n, ast.Nonlocal) and target.id in n.names for n in ast.walk(fn))
 
 
 def _continuation_flag_writes(fn):
@@ -422,7 +431,7 @@ def _continuation_flag_writes(fn):
     locals_ = {s.targets[0].id for s in ast.walk(fn) if isinstance(s, ast.Assign) and isinstance(s.targets[0], ast.Name) and is_test(s.value)}
     derived = []
     for s in ast.walk(fn):
-        if isinstance(s, ast.Assign) and isinstance(s.targets[0], (ast.Subscript, ast.Attribute)):
+        if isinstance(s, ast.Assign) and _persistent(s.targets[0], fn):
             guard = [a for a in ancestors(s) if isinstance(a, ast.If)]
             if is_test(s.value) or (isinstance(s.value, ast.Name) and s.value.id in locals_) or (guard and (is_test(guard[0].test) or (isinstance(guard[0].test, ast.Name) and guard[0].test.id in locals_)) and isinstance(s.value, ast.Constant) and isinstance(s.value.value, bool)):
                 derived.append(s)
@@ -447,6 +456,7 @@ def remargin_siblings(ctx):
     ctx.check({"backslash-continuation", "triple-quote"} <= fa, "lexer-side", db.where(a), "adjust_whitespace's scanner tracks %s" % sorted(fa), sorted(fa))
     ctx.check({"backslash-continuation", "triple-quote"} <= fb, "printer-side", db.where(b), "the printer's scanner tracks %s" % sorted(fb), sorted(fb))
     for side, fn_, feats in (("lexer", a, fa), ("printer", b, fb)):
+        ctx.check("which-quote-opened" in feats, "closing-quote:" + side, db.where(fn_), "the %s-side scanner does not look for the kind of quote that opened a multi-line string when it looks for its end: a \"\"\" string that contains \'\'\' is taken to end there, and the lines after it are re-margined although they are string content" % side, "the end of a string is searched with the quote that opened it")
         ws = _continuation_flag_writes(fn_)
         other = [s_ for s_, ok_ in ws if not ok_]
         ctx.check(bool(ws) and (not other or "ordinary-quote" in feats), "continuation-flag:" + side, db.where(other[0]) if other else db.where(fn_),
